@@ -30,7 +30,7 @@ pub struct RunReport {
 
 const PRE_TID: usize = 99;
 
-fn snapshot_fault_counters() -> [u64; 6] {
+fn snapshot_fault_counters() -> [u64; 7] {
     [
         LOG_CALLS.load(Ordering::Relaxed),
         LOG_PANICS.load(Ordering::Relaxed),
@@ -38,6 +38,7 @@ fn snapshot_fault_counters() -> [u64; 6] {
         LOG_YIELDS.load(Ordering::Relaxed),
         LOG_REENTER_BAD.load(Ordering::Relaxed),
         HEAP_FILLED_BLOCKS.load(Ordering::Relaxed),
+        LOG_DISABLED_SETS.load(Ordering::Relaxed),
     ]
 }
 
@@ -221,6 +222,7 @@ pub fn run_one(tr: &RunTrace, opts: &RunOpts) -> RunReport {
     c.insert("fault_logger_panic", after[1] - before[1]);
     c.insert("fault_logger_reenter", after[2] - before[2]);
     c.insert("fault_logger_yield", after[3] - before[3]);
+    c.insert("fault_logger_disabled", after[6] - before[6]);
     c.insert("fault_heap_fill_blocks", after[5] - before[5]);
     c.insert("fault_preempt_inside_call", sched_report.inner_switches);
     c.insert("sched_yield_points", sched_report.yields);
